@@ -14,6 +14,8 @@ pub trait Node {
     fn child(&self) -> Self::Child;
     fn child_mut(&mut self) -> Self::Child;
     fn into_child(self) -> Self::Child;
+    /// a consuming call whose wrapped child may not come about
+    fn try_child(self, fail: i64) -> Result<Self::Child, ()>;
     fn fin(self) -> i64;
 }
 
@@ -57,6 +59,7 @@ impl Node for Inst {
     fn child(&self) -> Inst { Inst::new(self.id + 100) }
     fn child_mut(&mut self) -> Inst { Inst::new(self.id + 100) }
     fn into_child(self) -> Inst { Inst::new(self.id + 200) }
+    fn try_child(self, fail: i64) -> Result<Inst, ()> { if fail != 0 { Err(()) } else { Ok(Inst::new(self.id + 200)) } }
     fn fin(self) -> i64 { self.id + 300 }
 }
 impl GFin for Inst { type GChild = Inst; fn gfin(self) -> i64 { self.id + 300 } fn ginto_child(self) -> Inst { Inst::new(self.id + 200) } fn gchild_mut(&mut self) -> Inst { Inst::new(self.id + 100) } }
@@ -180,7 +183,11 @@ pub fn run(_params: &[i64], ops: &Rows, mon: &mut Mon) -> Rows {
                 let _ = CTX_DROP_SITES.with(|v| std::mem::take(&mut *v.borrow_mut()));
                 let private = CArc::from(CtxP);
                 let o = trait_obj!((Inst::new(op[1]), private) as Node);
-                if c == 13 { let _ = o.fin(); } else { let ch = o.into_child(); drop(ch); }
+                // (third field 1: the same through the FALLIBLE consuming method — 13: it fails, nothing comes back; 14: it succeeds)
+                let fallible = op.get(2) == Some(&1);
+                if c == 13 { if fallible { if o.try_child(1).is_ok() { mon.fail(format!("op{} try_child(fail) returned a child", k)); } } else { let _ = o.fin(); } }
+                else if fallible { match o.try_child(0) { Ok(ch) => drop(ch), Err(()) => mon.fail(format!("op{} try_child(succeed) returned no child", k)) } }
+                else { let ch = o.into_child(); drop(ch); }
                 let sites = CTX_DROP_SITES.with(|v| std::mem::take(&mut *v.borrow_mut()));
                 if sites != vec![0] { mon.fail(format!("op{} context payload destroyed {:?} (1 = inside the callee's wrapper, expected exactly once, after it returned)", k, sites)); }
                 res = Some(None);
